@@ -624,6 +624,62 @@ let pred_c10 steps impl =
       !res end
   | None -> "0"
 
+(* C07: every call of the case is confined to another domain: the observed
+   domain's block of answers is the same before and after it *)
+let pred_c07 steps impl =
+  match impl_results impl with
+  | Some outs ->
+    let stl = steps_list steps in
+    let sts = Array.of_list stl in
+    if Array.length sts <> List.length outs then false else begin
+      let ok = ref true in
+      Array.iteri (fun i st ->
+          if not (is_query st) then begin
+            let n = block_before stl i in
+            if n > 0 && sub_list stl (i - n) n = sub_list stl (i + 1) n then
+              if sub_list outs (i - n) n <> sub_list outs (i + 1) n then ok := false
+          end) sts;
+      !ok end
+  | None -> false
+
+(* C08: granting never revokes, revoking never grants.
+   allow-override: after an accepted addition of a rule or link the granted
+   set only grows, after a removal it only shrinks; deny-override and
+   allow-and-deny: adding a rule whose effect is deny only shrinks it, removing
+   one only grows it. *)
+let pred_c08 spec steps impl =
+  match impl_results impl with
+  | Some outs ->
+    let stl = steps_list steps in
+    let sts = Array.of_list stl in
+    if Array.length sts <> List.length outs then false else begin
+      let eff = List.fold_left (fun acc kv -> if String.length kv > 2 && String.sub kv 0 2 = "e=" then
+                                   String.sub kv 2 (String.length kv - 2) else acc) "" (split_outside ';' spec) in
+      let ok = ref true in
+      let os = Array.of_list outs in
+      Array.iteri (fun i st ->
+          if not (is_query st) && os.(i) = "1" then begin
+            let n = block_before stl i in
+            if n > 0 && sub_list stl (i - n) n = sub_list stl (i + 1) n then begin
+              let before = sub_list outs (i - n) n and after = sub_list outs (i + 1) n in
+              let grows = List.for_all2 (fun b a -> b <> "1" || a = "1") before after in
+              let shrinks = List.for_all2 (fun b a -> a <> "1" || b = "1") before after in
+              let f = String.split_on_char ':' st in
+              (match f with
+               | [("A" | "R") as k; sec; _; rule] ->
+                 let is_add = k = "A" in
+                 let flds = String.split_on_char ',' rule in
+                 let last = List.nth flds (List.length flds - 1) in
+                 if eff = "AO" then (if is_add then (if not grows then ok := false) else (if not shrinks then ok := false))
+                 else if sec = "p" && last = "deny" then
+                   (if is_add then (if not shrinks then ok := false) else (if not grows then ok := false))
+                 else ()
+               | _ -> ())
+            end
+          end) sts;
+      !ok end
+  | None -> false
+
 let pred_eng line spec ad flags steps impl =
   (* a constructor that failed (e.g. a scripted adapter failing the initial load) leaves nothing to judge *)
   if impl_results impl = None && String.length impl >= 5 && String.sub impl 0 5 = "new=E" then "-" else
@@ -631,6 +687,8 @@ let pred_eng line spec ad flags steps impl =
   | "C05" -> b01 (pred_c05 steps impl)
   | "C09" -> b01 (pred_c09 steps impl)
   | "C10" -> pred_c10 steps impl
+  | "C07" -> b01 (pred_c07 steps impl)
+  | "C08" -> b01 (pred_c08 spec steps impl)
   | "C01" -> b01 (pred_c01 line spec ad flags steps impl)
   | "C17" -> b01 (pred_c17 steps impl)
   | _ -> "-"
@@ -648,6 +706,7 @@ let run_case (line : string) (toks : string list) : string =
   | ["rm"; maxd; ops; qs] -> run_rm maxd ops qs
   | "pm" :: fn :: k :: pat :: rest -> run_pm fn k pat rest
   | ["savecrash"; o; n; k] -> run_savecrash o n k
+  | "stress" :: _ -> "ok"   (* serial oracle: every concurrent decision is a serial one, all threads finish *)
   | [("csv" | "esc" | "rmc" | "csvf" | "ini" | "mdl" | "totext") as kind; t] -> run_txt kind t
   | _ -> "?unknown-case"
 
@@ -670,6 +729,7 @@ let pred_case (line : string) (toks : string list) (impl : string) : string =
      | [a; b] -> b01 (a = b)
      | _ -> "0")
   | ["savecrash"; o; n; _] -> pred_savecrash o n impl
+  | "stress" :: _ -> b01 (impl = "ok")
   | "pm" :: fn :: k :: pat :: rest ->
     (* totality for every request-side key; documented meaning inside the grammar *)
     if impl = "PANIC" || impl = "HANG" || impl = "ABORT" then "0"
